@@ -133,11 +133,12 @@ def diff(a, b, path=''):
 
 @st.composite
 def diff_cases(draw):
+    op = draw(ops.frame_op_strategy())  # decisive choice first (late draws are biased to their first option)
     rec = draw(gen.frame_recipe(max_rows=6, max_cols=6, kinds=KINDS,
                                 index_kinds=('auto', 'int', 'str', 'date', 'ih'), column_kinds=('auto', 'int', 'str', 'ih')))
     cols = gen.block_columns(rec['blocks'])
     lay2 = draw(gen.relayout(cols))
-    return {'rec': rec, 'lay2': lay2, 'op': draw(ops.frame_op_strategy())}
+    return {'rec': rec, 'lay2': lay2, 'op': op}
 
 
 def _sig_layout(blks):
@@ -268,6 +269,7 @@ def check_coh(case):
 def astype_cases(draw):
     """astype[key](dtype) where the requested dtype is one the frame already holds, keys with gaps (stepped slices,
     gappy lists, masks) inside wide blocks: differential over layouts plus the per-column dtype model."""
+    route = draw(st.sampled_from(['iloc', 'loc', 'mask']))
     rec = draw(gen.frame_recipe(min_rows=1, max_rows=4, min_cols=2, max_cols=7, kinds=('int64', 'float64', 'bool', 'object', 'int32'),
                                 index_kinds=('auto',), column_kinds=('auto', 'str'), missing=False))
     cols = gen.block_columns(rec['blocks'])
@@ -275,7 +277,7 @@ def astype_cases(draw):
     own = sorted({str(c.dtype) for c in cols})
     dt = draw(st.sampled_from(own + ['float64', 'object']))
     return {'rec': rec, 'lay2': draw(gen.relayout(cols)), 'key': draw(gen.iloc_key(m, allow_scalar=False)), 'dt': dt,
-            'route': draw(st.sampled_from(['iloc', 'loc', 'mask']))}
+            'route': route}
 
 
 def check_astype(case):
